@@ -92,6 +92,7 @@ func cmdCheck(args []string) int {
 	timeout := 150
 	if *tier == "thorough" {
 		timeout = 400
+		crossCheck = true
 	}
 	t0 := time.Now()
 	evPath := filepath.Join(verifDir(), "evidence", prop+".json")
@@ -211,10 +212,15 @@ func cmdCheck(args []string) int {
 	}
 	sort.Strings(funcs)
 	writeEvidence(evPath, prop, *tier, seed, time.Since(t0).Seconds(), funcs, samples, violations,
-		map[string]interface{}{"obligations": nObl, "discharged": nDis, "by_backend": byBackend, "solver_s": round3(solverS),
+		map[string]interface{}{"obligations": nObl, "discharged": nDis, "by_backend": byBackend, "cross_check": crossSummary(), "solver_s": round3(solverS),
 			"out_of_reach": outOfReach, "vacuity": vac, "known_findings": knownPrinted, "inlined": collectInlined(reps), "stdlib_inlined": collectStd(reps)}, L, nil)
 	if violations > 0 {
 		return 1
+	}
+	if n := crossSummary()["disagreements"]; n > 0 {
+		// a solver answered "sat" where the winner answered "unsat" (with quantifiers or lambdas a
+		// "sat" may be an incomplete solver's guess): recorded in the evidence, not an alarm
+		fmt.Printf("NOTE property=%s cross-check: %d queries with a dissenting solver (see evidence cross_check)\n", prop, n)
 	}
 	fmt.Printf("OK property=%s functions=%d obligations=%d discharged=%d wall=%.1fs\n", prop, len(funcs), nObl, nDis, time.Since(t0).Seconds())
 	return 0
@@ -388,4 +394,15 @@ func globMatch(pat, s string) bool {
 		s = s[k+len(p):]
 	}
 	return true
+}
+
+// crossSummary: thorough-tier cross-solver statistics (empty in the quick tier).
+func crossSummary() map[string]int {
+	crossMu.Lock()
+	defer crossMu.Unlock()
+	out := map[string]int{}
+	for k, v := range crossStats {
+		out[k] = v
+	}
+	return out
 }
